@@ -126,6 +126,18 @@ static void ARM(void)
 	}
 }
 
+/* A fixture the scenario needs from the (shared) machine could not be had - typically no loopback port
+ * left.  Nothing to explore: the execution ends, counted, never a failure. */
+static sigjmp_buf end_jmp; static volatile int end_armed;
+static void fixture_unavailable(const char *what)
+{
+	(void)what;
+	if (!armed_once) ARM();
+	if (end_armed) siglongjmp(end_jmp, 4);
+	fprintf(stderr, "c08: fixture unavailable outside an execution: %s\n", what); abort();
+}
+#define NEED(cond) do { if (!(cond)) fixture_unavailable(#cond); } while (0)
+
 /* ------------------------------------------------------------------ */
 /* shared fixtures                                                     */
 
@@ -154,7 +166,7 @@ static void logcb(int sev, const char *m)
  * 2 and 3 are robustness defects outside C08; they are reported under their own keys and the
  * exploration goes on (a dying worker would cost a re-init and the explorer stops after 40 deaths).
  * Errors found by AddressSanitizer itself (use-after-free, overflow) still kill the worker. */
-static sigjmp_buf end_jmp; static volatile int end_armed; static int fatal_code;
+static int fatal_code;
 #define EVENT_ERR_ABORT_CODE ((int)0xdeaddead)
 static void fatalcb(int err)
 {
@@ -287,7 +299,7 @@ static void spin(struct event_base *b, int n)
 }
 static int mk_socketpair(int sv[2])
 {
-	if (socketpair(AF_UNIX, SOCK_STREAM, 0, sv) < 0) { perror("socketpair"); abort(); }
+	if (socketpair(AF_UNIX, SOCK_STREAM, 0, sv) < 0) fixture_unavailable("socketpair");
 	evutil_make_socket_nonblocking(sv[0]); evutil_make_socket_nonblocking(sv[1]);
 	return 0;
 }
@@ -313,7 +325,7 @@ static int udp_bound(struct sockaddr_in *out)
 	struct sockaddr_in sin; socklen_t l = sizeof sin;
 	int s = socket(AF_INET, SOCK_DGRAM, 0);
 	memset(&sin, 0, sizeof sin); sin.sin_family = AF_INET; sin.sin_addr.s_addr = htonl(0x7f000001);
-	if (s < 0 || bind(s, (struct sockaddr *)&sin, sizeof sin) < 0 || getsockname(s, (struct sockaddr *)&sin, &l) < 0) { perror("udp_bound"); abort(); }
+	if (s < 0 || bind(s, (struct sockaddr *)&sin, sizeof sin) < 0 || getsockname(s, (struct sockaddr *)&sin, &l) < 0) fixture_unavailable("udp_bound");
 	evutil_make_socket_nonblocking(s);
 	if (out) *out = sin;
 	return s;
@@ -345,7 +357,7 @@ static const struct scenario scen[] = {
 struct scount { long allocs; long sys[SF_N]; int K; int unstable; };
 static struct scount sc[256];
 
-static void run_scenario(int s)
+static int run_scenario(int s)
 {
 	locks_begin_execution();
 	sf_reset();
@@ -355,15 +367,17 @@ static void run_scenario(int s)
 	int how = sigsetjmp(end_jmp, 1);
 	if (how == 0) { end_armed = 1; scen[s].fn(scen[s].arg); }
 	end_armed = 0;
-	if (how && !quiet) {
+	if (how == 4) { if (!quiet) { mc_observe("*fixture-unavailable* "); MC_COUNT("fixture_unavailable"); } }
+	else if (how && !quiet) {
 		if (how == 1) { mc_observe("*libevent-fatal-exit(%d)* ", fatal_code); MC_COUNT("runs_ended_by_libevent_fatal_exit"); }
 		else { mc_observe("*crash(%s)* ", how == 2 ? "assert" : "SIGSEGV"); MC_COUNT("runs_ended_by_crash_inside_libevent"); }
 	}
-	if (how && quiet) { fprintf(stderr, "c08: scenario %s ends abnormally (%d) without any fault: %s\n", scen[s].name, how, last_err); abort(); }
+	if (how && how != 4 && quiet) { fprintf(stderr, "c08: scenario %s ends abnormally (%d) without any fault: %s\n", scen[s].name, how, last_err); abort(); }
 	B = NULL;
 	/* hygiene: anything a failed path leaked must not influence the next execution */
 	close_leaked_fds();
 	signal(SIGUSR1, SIG_DFL); signal(SIGUSR2, SIG_DFL);
+	return how;
 }
 
 static int decode_fault(const struct scount *c, int idx, struct fault *f)
@@ -462,7 +476,12 @@ static void init(void)
 		struct scount a, b; double t_start = real_now();
 		for (int r = 0; r < 3; r++) {
 			struct scount *t = r == 1 ? &a : &b;
-			run_scenario(s);
+			int tries = 0;
+			while (run_scenario(s) == 4) {      /* counts of a run without its fixture would be wrong */
+				struct timespec ts = { 0, 200000000 };
+				if (++tries > 100) { fprintf(stderr, "c08: scenario %s: fixture unavailable during warm-up\n", scen[s].name); abort(); }
+				syscall(SYS_nanosleep, &ts, NULL);
+			}
 			t->allocs = sf_alloc_count();
 			for (int i = 0; i < SF_N; i++) t->sys[i] = sf_sys_count(i);
 		}
